@@ -31,6 +31,34 @@ FUNC = (ast.FunctionDef, ast.AsyncFunctionDef)
 _PARSED: dict = {}
 
 
+_FLIP = {ast.Lt: ast.Gt, ast.Gt: ast.Lt, ast.LtE: ast.GtE, ast.GtE: ast.LtE, ast.Eq: ast.Eq, ast.NotEq: ast.NotEq}
+
+
+def _constlike(e) -> bool:
+    return isinstance(e, ast.Constant) or (isinstance(e, ast.UnaryOp) and isinstance(e.op, ast.USub) and isinstance(e.operand, ast.Constant))
+
+
+def canon_compares(tree: ast.AST) -> int:
+    """Give every binary comparison `a OP b` (OP in < > <= >= == !=) one orientation that does
+    not depend on how it was written: a constant goes to the right; otherwise the operand whose
+    dump sorts first goes to the left. `b > a` and `a < b` are the same node afterwards, so no
+    rule can depend on the orientation chosen by the author. Returns the number of flips."""
+    flips = 0
+    for n in ast.walk(tree):
+        if isinstance(n, ast.Compare) and len(n.ops) == 1 and type(n.ops[0]) in _FLIP:
+            l, r = n.left, n.comparators[0]
+            cl, cr = _constlike(l), _constlike(r)
+            if cl != cr:
+                do = cl
+            else:
+                do = ast.dump(l) > ast.dump(r)
+            if do:
+                n.left, n.comparators, n.ops = r, [l], [_FLIP[type(n.ops[0])]()]
+                # keep positions usable for reports
+                flips += 1
+    return flips
+
+
 def _link(tree: ast.AST, mod: Module) -> None:
     """Parent links, module back-pointer and enclosing function qualname."""
 
@@ -89,6 +117,8 @@ class Tree:
                     tree = ast.parse(src, filename=rel)
                 except (SyntaxError, UnicodeDecodeError) as exc:
                     raise AnalysisError(f"cannot parse {rel}: {exc}") from exc
+                if os.environ.get("SA_NO_CANON") != "1":
+                    canon_compares(tree)
                 mod = Module(rel, path, src, tree, sha)
                 _link(tree, mod)
                 for node in ast.walk(tree):
